@@ -29,6 +29,11 @@ func specName(subs [][]jobSpec) string {
 }
 
 func poolScenario(cfg scenlib.PoolCfg, subs [][]jobSpec, closeAtEnd bool, bound int, delay bool) *vsched.Scenario {
+	return poolScenarioP(cfg, subs, closeAtEnd, 0, bound, delay)
+}
+
+// prealloc > 0: the driver calls PreAllocWorkerSize(prealloc) concurrently with the submitters.
+func poolScenarioP(cfg scenlib.PoolCfg, subs [][]jobSpec, closeAtEnd bool, prealloc int, bound int, delay bool) *vsched.Scenario {
 	fam := "pool"
 	if closeAtEnd {
 		fam = "pool-closed-at-end"
@@ -47,7 +52,7 @@ func poolScenario(cfg scenlib.PoolCfg, subs [][]jobSpec, closeAtEnd bool, bound 
 		}
 	}
 	return &vsched.Scenario{
-		Name:     fmt.Sprintf("%s/%s/%s", fam, cfg, specName(subs)),
+		Name:     fmt.Sprintf("%s/%s/%s/prealloc%d", fam, cfg, specName(subs), prealloc),
 		Bound:    bound,
 		Delay:    delay,
 		TimerDev: true,
@@ -79,6 +84,9 @@ func poolScenario(cfg scenlib.PoolCfg, subs [][]jobSpec, closeAtEnd bool, bound 
 					}
 					done <- si
 				})
+			}
+			if prealloc > 0 {
+				p.PreAllocWorkerSize(prealloc)
 			}
 			if closeAtEnd {
 				for range subs {
@@ -116,7 +124,7 @@ func poolScenario(cfg scenlib.PoolCfg, subs [][]jobSpec, closeAtEnd bool, bound 
 				case strings.HasPrefix(res, "other:"), res == "queue-closed" && !closeAtEnd:
 					fs = append(fs, e1.Fail("C09|"+fam+"|error-code", "job %d: Schedule returned %s", j.id, res))
 				}
-				if j.spec.kind == "panic" {
+				if j.spec.kind == "panic" || j.spec.kind == "timed-panic" {
 					want := fmt.Sprintf("boom-%d", j.id)
 					if n := e1.Count(r, "panic-handler", want); n != runs {
 						fs = append(fs, e1.Fail("C09|"+fam+"|panic-handler-count", "panicking job %d ran %d time(s) but the panic handler saw it %d time(s)", j.id, runs, n))
@@ -175,6 +183,12 @@ func scenarios(tier string) []*vsched.Scenario {
 			out = append(out, poolScenario(c, scripts[1], true, 1, false), poolScenario(c, scripts[6], true, 2, true))
 		}
 		out = append(out, poolScenario(cfgs[2], scripts[2], false, 1, false), poolScenario(cfgs[2], scripts[4], false, 2, true))
+		// jobs that take virtual time (the spawn loop is idle again when they end / panic); PreAllocWorkerSize racing the spawn loop
+		out = append(out,
+			poolScenario(cfgs[0], [][]jobSpec{{js("timed-panic", S), js("plain", S)}}, false, 1, false),
+			poolScenario(cfgs[1], [][]jobSpec{{js("timed", S), js("timed-panic", S), js("plain", T)}}, false, 1, false),
+			poolScenario(cfgs[3], [][]jobSpec{{js("timed-panic", S), js("timed", S), js("plain", S)}}, false, 1, false),
+			poolScenarioP(scenlib.PoolCfg{Cap: 2, Buf: 0, Max: 1, StandBy: 0, Batch: 1}, [][]jobSpec{{js("timed", S), js("timed", S)}}, false, 1, 1, false))
 		return out
 	}
 	cfgs = append(cfgs, scenlib.PoolCfg{Cap: 2, Buf: 2, Max: 1, StandBy: 1, Batch: 1}, scenlib.PoolCfg{Cap: 1, Buf: 1, Max: 2, StandBy: 2, Batch: 0})
@@ -189,6 +203,12 @@ func scenarios(tier string) []*vsched.Scenario {
 			}
 		}
 		out = append(out, poolScenario(c, scripts[1], true, 1, false), poolScenario(c, scripts[6], true, 3, true))
+		out = append(out,
+			poolScenario(c, [][]jobSpec{{js("timed-panic", S), js("plain", S)}}, false, 2, false),
+			poolScenario(c, [][]jobSpec{{js("timed", S), js("timed-panic", S), js("plain", T)}}, false, 1, false),
+			poolScenarioP(c, [][]jobSpec{{js("slow", S), js("slow", S), js("slow", S)}}, false, c.Max, 1, false),
+			poolScenarioP(c, [][]jobSpec{{js("timed", S), js("timed", S)}}, false, c.Max, 1, false),
+			poolScenarioP(c, [][]jobSpec{{js("slow", S), js("slow", S)}}, false, c.Max, 3, true))
 	}
 	return out
 }
